@@ -19,12 +19,17 @@ def run(chk):
         seed = 1000 * chk.seed + 17 * g["n1"] + g["n2"]
         # (A) the prover at capacity cp
         a = {"id": "capP-%s-cp%d-cv%d" % (key, g["p"]["cap"], g["vcap"]), "p": g["p"], "seed": seed, "expect_p": g["expect_p"], "vskip": True}
+        if g["expect_p"] == "ok":
+            a["expect_p"] = ""       # "proceeds": judged below (not the capacity error)
+        a["model_p"] = g["expect_p"]
         if g["vcap"] == 0:       # one prover run per (n1, n2, cp)
             progs.append(a)
         # (B) the verifier at capacity cv, against a proof made with sufficient prover capacity max(cp, pad)
         pc = max(g["p"]["cap"], g["pad"])
+        # at or above the threshold the verifier "proceeds": the result is not the capacity error, and (below) does not depend on the capacity
         b = {"id": "capV-%s-cp%d-cv%d" % (key, pc, g["vcap"]), "p": dict(g["p"], cap=pc), "v": dict(g["p"], cap=g["vcap"]),
-             "seed": seed, "expect_p": "ok", "expect_v": g["expect_v"], "key": key}
+             "seed": seed, "expect_p": "", "expect_v": g["expect_v"] if g["expect_v"] == "InvalidGeneratorsLength" else "", "key": key,
+             "model_v": g["expect_v"]}
         progs.append(b)
     chk.sample({"grid_point": grid[len(grid) // 3]})
     for c in vlib.REAL_CURVES + ["toy31723"]:
@@ -34,6 +39,18 @@ def run(chk):
             ps = [dict(p, expect_v=p.get("expect_v") if p.get("expect_v") == "InvalidGeneratorsLength" else "") for p in progs]
         rows = vlib.replay(chk, c, ps, "cap")
         vlib.report_replay(chk, rows, "threshold")
+        verdicts = collections.defaultdict(set)
+        for r_ in rows:
+            pr = r_["program"]
+            if pr.get("model_p") == "ok" and r_["pres"] == "InvalidGeneratorsLength":
+                chk.violation("threshold-%s-%s" % (c, pr["id"]), {"curve": c, "program": pr, "observed": r_["pres"]}, "prove reports too few generators at a sufficient capacity")
+            if pr.get("model_v") == "ok" and r_["pres"] == "ok":
+                if r_["vres"] == "InvalidGeneratorsLength":
+                    chk.violation("threshold-%s-%s" % (c, pr["id"]), {"curve": c, "program": pr, "observed": r_["vres"]}, "verify reports too few generators at a sufficient capacity")
+                verdicts[pr["key"]].add(r_["vres"])
+        for k, v in verdicts.items():
+            if len(v) > 1:
+                chk.violation("verdict-capacity-dependence-%s-%s" % (c, k), {"curve": c, "key": k, "verdicts": sorted(v)}, "the verdict depends on the generator capacity for %s on %s: %s" % (k, c, sorted(v)))
         # the proof does not depend on how much larger the capacity is: same seed, same program => same bytes
         byk = collections.defaultdict(set)
         for r_ in rows:
